@@ -54,7 +54,8 @@ def check(run, only=None):
                 "LF/CR/CRLF, numbers, names, alphabetic and symbolic operators, quotes, '#{', brackets, punctuation, a 2-byte rune, "
                 "an invalid byte, tag keywords) and every byte-prefix of them (all with <= 2 fragments, seeded stride of 3); plus "
                 "every prefix and single-byte deletion of 14 corpus templates and seeded random byte strings, fragment strings, "
-                "insertions and deletions; observed: parse.Parse, Env.Parse, Env.Execute (core and Twig) return; non-trivial = source "
+                "insertions and deletions; plus the structured sources of C20_Src.tla, Mix_Src.tla and C06_Src.tla (tag nestings, closers, "
+                "else/elseif placement); observed: parse.Parse, Env.Parse, Env.Execute (core and Twig) return; non-trivial = source "
                 "contains an opening delimiter")
     run.assumptions = ["a token stream that differs from spec/Lexer.tla is counted as spec drift, not as a C01 violation (C14/C20 judge tokens)"]
     if only is not None:
@@ -71,6 +72,14 @@ def check(run, only=None):
     exp = {v["id"]: v["exp"]["tokens"] for v in vecs}
     cases = [{"id": v["id"], "k": "total", "src": v["src"]} for v in vecs]
     drift = run_cases(run, cases, exp)
+    # structured sources: the block-structure family (every body-opening tag against every closer, nested two deep, cut off,
+    # else/elseif in and out of place, stray closers, split operators) and the balanced/unbalanced tag nestings of the
+    # byte-level grammars - the parser, not only the tokeniser, must return on each
+    for mod in ("C20_Src", "Mix_Src", "C06_Src"):
+        rr = common.run_tlc(mod, mod + ("_thorough" if thorough and mod != "C20_Src" else ""), env={"VERIF_SEED": run.seed}, timeout=1800)
+        sc = [{"id": "C01-s-" + v["id"], "k": "total", "noexec": True, "src": v["srcs"][v["entry"]]} for v in rr["lines"] if "srcs" in v and not v.get("oom")]
+        run_cases(run, sc)
+        run.traces += len(sc)
     rnd = common.run_gen("c01", 200000 if thorough else 6000, run.seed, run.tier)
     run_cases(run, rnd)
     run.extra["token_streams_differing_from_spec"] = drift
